@@ -44,6 +44,10 @@ class HelpResolver(DefaultResolver):
         config.enable_lenient_args_parsing()
 
         try:
+            # The result may have been parsed (strictly) while the command was
+            # resolved and keeps that outcome: parse again in lenient mode
+            result = ResolveResult(result.command, result.raw_args)
+
             return super(HelpResolver, self).create_resolved_command(result)
         finally:
             if not was_lenient:
